@@ -77,6 +77,18 @@ def report(chk: C.Check, prop: str, results, scs, owned_kinds=None, describe='')
                           text, 'schedule_%s.txt' % re.sub(r'[^A-Za-z0-9]+', '_', sc.name))
 
 
+def matrix_section(chk, prop: str):
+    """the systematic pairwise matrix (fv/props/_matrix.py): the whole relevant part in the thorough tier, a seed-rotated sample in quick"""
+    from . import _matrix
+    if prop not in _matrix.OWNED:
+        return
+    scs, owned = _matrix.select(prop, chk.tier, C.SEED)
+    res = run_conc(scs)
+    chk.bounds['matrix'] = ('%d of the %d scenarios of the pairwise matrix (5 bin shapes x unordered pairs of (operation, key); 2 threads, <= 2 preemptions; quick: a sample rotated by VERIF_SEED)'
+                            % (len(scs), len(_matrix.all_scenarios())))
+    report(chk, prop, res, scs, owned_kinds=owned, describe='pairwise matrix: linearizable (clear / retain as their per-key steps), ledger clean, references held until the guard is released, quiescent structure well formed')
+
+
 def conc_extra(prop: str, make_scenarios, owned_kinds=None, describe=''):
     """an `extra` hook for run_property: adds an interleaving section to a mode-B property"""
     def extra(chk, results, scs):
@@ -84,4 +96,5 @@ def conc_extra(prop: str, make_scenarios, owned_kinds=None, describe=''):
         res = run_conc(cs)
         chk.bounds['interleavings'] = '%d scenarios of 2 logical threads, <= 2 preemptions, every atomic access a scheduling point unless stated' % len(cs)
         report(chk, prop, res, cs, owned_kinds=owned_kinds, describe=describe)
+        matrix_section(chk, prop)
     return extra
